@@ -191,6 +191,29 @@ void cpc_compressor<A>::uncompress(const compressed_state<A>& source, uncompress
 }
 
 template<typename A>
+void cpc_compressor<A>::check_compressed_sizes(const compressed_state<A>& source, uint8_t lg_k) {
+  const uint32_t k = 1 << lg_k;
+  if (source.window_data_words > safe_length_for_compressed_window_buf(k)) {
+    throw std::invalid_argument("Possible corruption: window data words " + std::to_string(source.window_data_words)
+        + " for lg_k " + std::to_string(lg_k));
+  }
+  if (source.table_data_words > 0) {
+    const uint32_t num_pairs = source.table_num_entries;
+    if (num_pairs > 64ULL * k) { // the bit matrix has k rows of 64 columns
+      throw std::invalid_argument("Possible corruption: table entries " + std::to_string(num_pairs)
+          + " for lg_k " + std::to_string(lg_k));
+    }
+    const uint8_t num_base_bits = golomb_choose_number_of_base_bits(k + num_pairs, num_pairs);
+    // the compressor never needs more words than that, and each pair takes at least 2 + num_base_bits bits
+    if (source.table_data_words > safe_length_for_compressed_pair_buf(k, num_pairs, num_base_bits)
+        || static_cast<uint64_t>(num_pairs) * (2 + num_base_bits) > 32ULL * source.table_data_words) {
+      throw std::invalid_argument("Possible corruption: table data words " + std::to_string(source.table_data_words)
+          + " for " + std::to_string(num_pairs) + " entries and lg_k " + std::to_string(lg_k));
+    }
+  }
+}
+
+template<typename A>
 void cpc_compressor<A>::compress_sparse_flavor(const cpc_sketch_alloc<A>& source, compressed_state<A>& result) const {
   if (source.sliding_window.size() > 0) throw std::logic_error("unexpected sliding window");
   vector_u32 pairs = source.surprising_value_table.unwrapping_get_items();
